@@ -569,3 +569,6 @@ m('c07-with-prec-sign-blind', ['C07'], 'with_prec|get_rounding_term', [
                     q += get_rounding_term(&r);
                 }""")],
   'the original sign-blind with_prec (fixed in b0f6569): negatives truncate')
+m('c16-ascii-zero-confusion', ['C16'], 'UNITS', [
+  ('src/impl_fmt.rs', "rounder, insig_digit, || trailing_digits.iter().all(|&d| d == b'0')\n            );\n\n            let rounded_digit = insig_data.round_digit(0);", "rounder, insig_digit, || trailing_digits.iter().all(Zero::is_zero)\n            );\n\n            let rounded_digit = insig_data.round_digit(0);")],
+  "ASCII bytes tested with the numeric is_zero: the tail flag is never true, ties round up ({:.0} of 0.50 prints 1)")
